@@ -155,6 +155,32 @@ func runC06(s *Sim) {
 				if !st {
 					acts = append(acts, Action{Name: "stall-writes " + l.String(), W: 1, Do: func() { l.StallWrites(); s.Stat("env.link-stalled") }})
 				} else {
+					if l.ParkedWriters() > 0 {
+						// while one request's write is held up in the link, the answer to another request
+						// arrives: its caller gets it at once (nothing it needs depends on the parked write)
+						acts = append(acts, Action{Name: "answer-while-a-write-is-parked " + l.String(), W: 4, Do: func() {
+							for _, p := range append([]*pend(nil), s.Broker.Pend...) {
+								if p.Link != l || p.Kind != "resp" || !strings.HasPrefix(p.Desc, "metadata-ack ") {
+									continue
+								}
+								marker := strings.TrimPrefix(p.Desc, "metadata-ack meta:")
+								for _, rec := range recs {
+									if rec.Kind != "meta" || rec.Marker != marker || rec.Op == nil || rec.Op.harvested || rec.Op.CancelT >= 0 || rec.Op.CtxKind == "expired" {
+										continue
+									}
+									s.Broker.Release(p, nil)
+									l.DeliverAll()
+									s.Wait()
+									s.Harvest()
+									s.Stat("env.response-delivered-while-another-write-is-parked")
+									if !rec.Op.harvested {
+										s.Violate("C06.caller-stuck", "response-while-another-write-is-parked", "SendMetadata(%s): its response was delivered while another request's write was held up in the link; the caller is still waiting (no clock advance needed)", marker)
+									}
+									return
+								}
+							}
+						}})
+					}
 					acts = append(acts, Action{Name: "resume-writes " + l.String(), W: 3, Do: func() {
 						if l.ParkedWriters() > 0 && t.Bool("fail-parked-write", 1, 2) {
 							l.FailNextWrites(1) // the parked request is refused, not some later keepalive ping
